@@ -32,7 +32,7 @@ def prepare():
     _S['harness'] = harness
 
 
-TOPICS = ['main', 'aux', '_hid']
+TOPICS = ['main', 'aux', '_hid', 'main2', 'mainframe', '_h', 'au']     # includes names that are proper prefixes of other names
 
 
 @st.composite
@@ -40,7 +40,7 @@ def sub_spec(draw, topics):
     form = draw(st.sampled_from(['all', 'all', 'star', 'main', 'list', 'list']))
     if form != 'list':
         return {'form': form}
-    pool = topics + ['nosuch']
+    pool = list(topics) + ['nosuch', 'mai', '_hi']
     srcs = draw(st.lists(st.sampled_from(pool), min_size=1, max_size=3, unique=True))
     return {'form': 'list', 'pairs': [[s, s if draw(st.booleans()) else f'r_{j}'] for j, s in enumerate(srcs)], 'short': draw(st.booleans())}
 
@@ -49,7 +49,7 @@ def sub_spec(draw, topics):
 def case_strategy(draw, tier):
     topo = draw(st.sampled_from(['edge', 'edge', 'chain', 'tee']))
     n = draw(st.integers(6, 14 if tier == 'quick' else 30))
-    topics = ['main'] + draw(st.lists(st.sampled_from(TOPICS[1:]), max_size=2, unique=True))
+    topics = draw(st.permutations(['main'] + draw(st.lists(st.sampled_from(TOPICS[1:]), max_size=3, unique=True))))
     faults = []
     if draw(st.integers(0, 2)) > 0:
         for _ in range(draw(st.integers(1, 3))):
